@@ -8,6 +8,7 @@ INVARIANT AdmitRejectsForeignKeys
 INVARIANT AdmitRejectsDroppedEvent
 INVARIANT RenameNet
 INVARIANT Mirror
+INVARIANT RefMirrorOk
 PROPERTY IncrementalKeeps
 VIEW MCView
 CHECK_DEADLOCK FALSE
